@@ -326,7 +326,7 @@ theorem rxInv_handleMsgs (ms : List Msg) (e : Ep) (hi : RxInv e) : RxInv (handle
     unfold handleMsgs
     split
     · exact hi
-    · exact ih _ (rxInv_handleMsg e m hi)
+    · exact ih _ (rxInv_handleMsg _ m (rxInv_of_view (e := e) rfl hi))
 
 theorem rxInv_recvRaw (e : Ep) (c : Bytes) (hi : RxInv e) : RxInv (recvRaw e c).1 := by
   unfold recvRaw
@@ -537,7 +537,7 @@ theorem processed_prefix_handleMsgs (ms : List Msg) (e : Ep) : e.processed <+: (
     unfold handleMsgs
     split
     · exact List.prefix_refl _
-    · have h1 : e.processed <+: (handleMsg e m).1.processed := by
+    · have h1 : e.processed <+: (handleMsg { e with rxMore := !ms.isEmpty || e.rx.dead } m).1.processed := by
         rw [processed_handleMsg]; exact List.prefix_append _ _
       exact List.IsPrefix.trans h1 (ih _)
 
@@ -603,8 +603,8 @@ theorem processed_prefix_step (e : Ep) (ev : Ev) : e.processed <+: (step e ev).1
       have h1 := processed_prefix_handleMsgs (feed e.rx c).2
         (rxEntry e c)
       split
-      · have := congrArg RxView.processed (view_doClose (handleMsgs (rxEntry e c)
-          (feed e.rx c).2).1)
+      · have := congrArg RxView.processed (view_doClose { (handleMsgs (rxEntry e c)
+          (feed e.rx c).2).1 with rxMore := false })
         simp only [Ep.rxView] at this
         rw [this]; exact h1
       · exact h1
